@@ -814,3 +814,16 @@ Example C01_fold_injective_nonvacuous :
   fold 0 u 1 s = Ok (mk [2; 3; 2] [0; 1; 4; 5; 8; 9; 2; 3; 6; 7; 10; 11]) /\
   vec_to_tensor (mk [6] (seq 0 6)) [2; 3] = Ok (mk [2; 3] (seq 0 6)).
 Proof. cbv zeta. repeat split; try (vm_compute; reflexivity); try (vm_compute; repeat constructor); try discriminate. Qed.
+
+(* surjectivity: with the injectivity theorems above, unfold(., m) is a BIJECTION between the well-formed tensors of shape s and the
+   well-formed matrices of shape [s_m; prod (s without m)], and tensor_to_vec one onto the vectors of length prod s *)
+Theorem C01_unfold_surjective : forall (A : Type) (d : A) (u : tensor A) (m : nat) (s : list nat),
+  wf u -> m < length s -> nth m s 0 <> 0 -> shape u = [nth m s 0; prod (remove_nth m s)] ->
+  exists t, fold d u m s = Ok t /\ unfold d t m = Ok u.
+Proof. exact @unfold_surjective. Qed.
+Print Assumptions C01_unfold_surjective.
+
+Theorem C01_vec_surjective : forall (A : Type) (v : tensor A) (s : list nat),
+  shape v = [prod s] -> exists t, vec_to_tensor v s = Ok t /\ tensor_to_vec t = Ok v.
+Proof. exact @vec_surjective. Qed.
+Print Assumptions C01_vec_surjective.
